@@ -44,7 +44,7 @@ const RPROTO: &str = "/verif/rr/1";
 // ---------------------------------------------------------------------------------------------
 
 #[derive(Clone, Debug, PartialEq)]
-enum PEv {
+pub(crate) enum PEv {
     Est { peer: PeerId, cid: String },
     Closed { peer: PeerId },
     SubOpened { peer: PeerId, inbound: bool },
@@ -55,7 +55,7 @@ enum PEv {
     Exited(&'static str),
 }
 
-enum PCmd {
+pub(crate) enum PCmd {
     Open(PeerId),
     ForceClose(PeerId),
     DropSubstreams,
@@ -63,7 +63,7 @@ enum PCmd {
     Exit(bool),
 }
 
-type PLog = Arc<Mutex<Vec<(u64, Instant, usize, PEv)>>>;
+pub(crate) type PLog = Arc<Mutex<Vec<(u64, Instant, usize, PEv)>>>;
 
 struct Probe {
     idx: usize,
@@ -334,27 +334,42 @@ fn directed(i: usize, gs: u64) -> Scen {
 // one node with its protocols
 // ---------------------------------------------------------------------------------------------
 
-struct Side {
-    node: Node,
-    plog: PLog,
-    probes: Vec<Option<mpsc::UnboundedSender<PCmd>>>,
-    notif: Option<mpsc::UnboundedSender<NCmd>>,
-    rr: Option<mpsc::UnboundedSender<RCmd>>,
+pub(crate) struct Side {
+    pub(crate) node: Node,
+    pub(crate) plog: PLog,
+    pub(crate) probes: Vec<Option<mpsc::UnboundedSender<PCmd>>>,
+    pub(crate) notif: Option<mpsc::UnboundedSender<NCmd>>,
+    pub(crate) rr: Option<mpsc::UnboundedSender<RCmd>>,
     /// requests answered by this side's request-response user task
     rr_answered: Arc<std::sync::atomic::AtomicU64>,
     rr_responses: Arc<std::sync::atomic::AtomicU64>,
 }
 
-enum NCmd {
+pub(crate) enum NCmd {
     Open(PeerId),
 }
-enum RCmd {
+pub(crate) enum RCmd {
     Request(PeerId),
 }
 
 fn spawn_side(cfg: &NodeCfg, exec: &ChaosExecutor) -> Result<Side, String> {
+    spawn_side_with(cfg, exec, None, false)
+}
+
+/// `ping`: enable the ping protocol with that interval; `identify`: enable identify.
+pub(crate) fn spawn_side_with(cfg: &NodeCfg, exec: &ChaosExecutor, ping: Option<Duration>, identify: bool) -> Result<Side, String> {
     let plog: PLog = Default::default();
     let mut builder = cfg.builder(exec);
+    if let Some(iv) = ping {
+        let (pc, mut pev) = litep2p::protocol::libp2p::ping::ConfigBuilder::new().with_ping_interval(iv).build();
+        builder = builder.with_libp2p_ping(pc);
+        tokio::spawn(async move { while pev.next().await.is_some() {} });
+    }
+    if identify {
+        let (ic, mut iev) = litep2p::protocol::libp2p::identify::Config::new("/verif/1".to_string(), Some("lpverif".to_string()));
+        builder = builder.with_libp2p_identify(ic);
+        tokio::spawn(async move { while iev.next().await.is_some() {} });
+    }
     let mut probes = Vec::new();
     for idx in 0..2 {
         let (tx, rx) = mpsc::unbounded_channel();
@@ -411,15 +426,15 @@ fn spawn_side(cfg: &NodeCfg, exec: &ChaosExecutor) -> Result<Side, String> {
 }
 
 impl Side {
-    fn probe_alive(&self, u: usize) -> bool {
+    pub(crate) fn probe_alive(&self, u: usize) -> bool {
         self.probes[u].is_some()
     }
-    fn send(&self, u: usize, c: PCmd) {
+    pub(crate) fn send(&self, u: usize, c: PCmd) {
         if let Some(tx) = &self.probes[u] {
             let _ = tx.send(c);
         }
     }
-    fn pcount(&self, f: impl Fn(usize, &PEv) -> bool) -> usize {
+    pub(crate) fn pcount(&self, f: impl Fn(usize, &PEv) -> bool) -> usize {
         self.plog.lock().unwrap().iter().filter(|(_, _, i, e)| f(*i, e)).count()
     }
 }
@@ -463,7 +478,7 @@ struct RunOut {
     rr_roundtrip_ok: Option<bool>,
 }
 
-async fn wait_until(deadline: Instant, mut f: impl FnMut() -> bool) -> bool {
+pub(crate) async fn wait_until(deadline: Instant, mut f: impl FnMut() -> bool) -> bool {
     loop {
         if f() {
             return true;
@@ -475,13 +490,13 @@ async fn wait_until(deadline: Instant, mut f: impl FnMut() -> bool) -> bool {
     }
 }
 
-fn est_count(n: &Node, p: &PeerId) -> usize {
+pub(crate) fn est_count(n: &Node, p: &PeerId) -> usize {
     n.events.lock().unwrap().iter().filter(|(_, _, e)| matches!(e, NodeEvent::Established { peer, .. } if peer == p)).count()
 }
-fn closed_count(n: &Node, p: &PeerId) -> usize {
+pub(crate) fn closed_count(n: &Node, p: &PeerId) -> usize {
     n.events.lock().unwrap().iter().filter(|(_, _, e)| matches!(e, NodeEvent::Closed { peer, .. } if peer == p)).count()
 }
-fn dial_failures(n: &Node) -> usize {
+pub(crate) fn dial_failures(n: &Node) -> usize {
     n.events.lock().unwrap().iter().filter(|(_, _, e)| matches!(e, NodeEvent::DialFailure { .. } | NodeEvent::ListDialFailures { .. })).count()
 }
 
